@@ -1459,7 +1459,12 @@ func (s *BgpServer) rtcVPNCandidates(peer *peer, isWithdraw bool, rt bgp.Extende
 		return
 	}
 	if isWithdraw {
-		s.getBestFromLocalCallbackLocked(peer, fs, false, fn)
+		// The caller sends the second list as it is and expects withdrawals in
+		// it: turn the paths the peer is no longer interested in into
+		// withdrawals of what had been advertised to it.
+		s.getBestFromLocalCallbackLocked(peer, fs, false, func(paths []*table.Path, filtered []*table.Path) {
+			fn(paths, withdrawalsForFiltered(peer, filtered))
+		})
 		return
 	}
 	fn(nil, s.globalRib.GetBestPathList(peer.TableID(), 0, fs))
